@@ -55,9 +55,7 @@ Section HM1.
   Qed.
 
   (* ---- chain segments: following next from [s] visits exactly [l] and ends with pointer [e] *)
-  Inductive Seg (ns : list node) : option nat -> list nat -> option nat -> Prop :=
-  | Seg_nil : forall s, Seg ns s [] s
-  | Seg_cons : forall i nd l e, nth_error ns i = Some nd -> Seg ns (nnext K V nd) l e -> Seg ns (Some i) (i :: l) e.
+  Notation Seg := (Seg K V).
 
   Lemma Seg_cons_inv : forall ns s i l e, Seg ns s (i :: l) e ->
     exists nd, s = Some i /\ nth_error ns i = Some nd /\ Seg ns (nnext K V nd) l e.
@@ -171,28 +169,9 @@ Section HM1.
   Qed.
 
   (* ---- the representation invariant *)
-  Definition MAXLF := HM_MAXLF_n.
 
-  Record hm_inv_w (m : hmap) (ch : nat -> list nat) (fl : list nat) : Prop := {
-    inv_ch : forall b, b < length (hbuckets K V m) ->
-               exists s, nth_error (hbuckets K V m) b = Some s /\ Seg (hnodes K V m) s (ch b) None;
-    inv_fl : Seg (hnodes K V m) (hfree K V m) fl None;
-    inv_nd : forall b, b < length (hbuckets K V m) -> NoDup (ch b);
-    inv_ndf : NoDup fl;
-    inv_cov : forall i nd, nth_error (hnodes K V m) i = Some nd ->
-                if nfilled K V nd then exists b, b < length (hbuckets K V m) /\ In i (ch b) else In i fl;
-    inv_fill : forall b i nd, b < length (hbuckets K V m) -> In i (ch b) -> nth_error (hnodes K V m) i = Some nd ->
-                 nfilled K V nd = true /\ hashmod (khash (nkey K V nd)) (length (hbuckets K V m)) = b;
-    inv_unf : forall i nd, In i fl -> nth_error (hnodes K V m) i = Some nd -> nfilled K V nd = false;
-    inv_keys : forall i j ni nj, nth_error (hnodes K V m) i = Some ni -> nth_error (hnodes K V m) j = Some nj ->
-                 nfilled K V ni = true -> nfilled K V nj = true -> keqb (nkey K V ni) (nkey K V nj) = true -> i = j;
-    inv_size : hsize K V m = length (filter (nfilled K V) (hnodes K V m));
-    inv_emp : length (hbuckets K V m) = 0 -> hnodes K V m = [];
-    inv_cap : length (hbuckets K V m) * MAXLF <= length (hnodes K V m) * 100;
-    inv_cap2 : length (hnodes K V m) <= ceilidiv (length (hbuckets K V m) * MAXLF) 100 + 1;
-    inv_room : 0 < length (hbuckets K V m) -> hsize K V m < length (hnodes K V m)
-  }.
-  Definition hm_inv (m : hmap) : Prop := exists ch fl, hm_inv_w m ch fl.
+  Notation hm_inv_w := (hm_inv_w K V keqb khash).
+  Notation hm_inv := (hm_inv K V keqb khash).
 
   (* chains are short: fuel |nodes|+1 always suffices *)
   Lemma nodup_bound : forall (l : list nat) n, NoDup l -> (forall i, In i l -> i < n) -> length l <= n.
@@ -217,11 +196,11 @@ Section HM1.
     assert (b < length (hbuckets K V m)) as Hb by (apply hashmod_lt; assumption).
     split; [assumption|].
     unfold hm_find. destruct (Nat.eqb_spec (length (hbuckets K V m)) 0); [lia|].
-    fold b. destruct (inv_ch _ _ _ I b Hb) as (s & Hs & HS).
+    fold b. destruct (inv_ch _ _ _ _ _ _ _ I b Hb) as (s & Hs & HS).
     rewrite (sget_Some _ _ _ _ Hs). cbn [rbind].
     rewrite (walk_chain _ key _ _ HS).
     - cbn [rbind]. destruct (find_in (hnodes K V m) key (ch b) None). reflexivity.
-    - pose proof (chain_len _ _ _ _ HS (inv_nd _ _ _ I b Hb)). lia.
+    - pose proof (chain_len _ _ _ _ HS (inv_nd _ _ _ _ _ _ _ I b Hb)). lia.
   Qed.
 
   Lemma hm_find_empty : forall m key, length (hbuckets K V m) = 0 ->
